@@ -114,6 +114,11 @@ def model(T, sid, allrules):
            f"Definition filtered : list positive := {clist(cpos(sid[n]) for n, fo in sorted(filt.items()) if fo)}.\n"
            f"Definition str_texts : list (positive * text) := {clist(f'({cpos(sid[t[0]])}, {ctext(t[6])})' for t in order if t[2])}.\n"
            "Lemma no_embedded : no_embedded_strings lex_order str_texts = true.\nProof. vm_compute. reflexivity. Qed.\n")
+    for t in order:
+        if t[0] in ("SYMBOL", "WS"):
+            # hypotheses of C17_class_plus_is_maximal_munch on the regenerated expression: (one-character class)+
+            txt += (f"Definition shape_{t[0]} : bool := match {coq_re(t[1])} with RPlus b => match Measured.Proofs.LexFacts.class_pred b with Some _ => true | None => false end | _ => false end.\n"
+                    f"Lemma {t[0]}_is_class_plus : shape_{t[0]} = true.\nProof. reflexivity. Qed.\n")
     return txt, nid, [t[0] for t in order]
 
 def coq_tree(t, sid, nid):
@@ -143,13 +148,18 @@ def parser_defs():
     need = ("unit", "unit_sequence", "term", "carat_exponent", "superscript_exponent")
     for n in need:
         if n not in nid: raise Untranslatable(f"the grammar has no node named {n}")
+    for n in ("quantity", "int", "float"):
+        if n not in nid: raise Untranslatable(f"the grammar has no node named {n}")
+    for t in ("SIGNED_INT", "SIGNED_FLOAT"):
+        if t not in sid: raise Untranslatable(f"the grammar has no terminal {t}")
     for t in ("SYMBOL", "CARAT_EXPONENT", "SUPERSCRIPT_EXPONENT"):
         if t not in sid: raise Untranslatable(f"the grammar has no terminal {t}")
-    txt = ("From Coq Require Import NArith PArith.\nFrom Measured Require Import Model.LR Model.Lex Model.TextParse.\n" + ltxt +
+    txt = ("From Coq Require Import NArith PArith.\nFrom Measured Require Import Model.LR Model.Lex Model.TextParse Proofs.LexFacts.\n" + ltxt +
            f"Definition lr_rules : list rule := {clist(f'(MkRule {cpos(sid[r[0]])} {cnat(len(r[1]))})' for r in allrules)}.\n"
            f"Definition lr_terminals : list positive := {clist(cpos(sid[t[0]]) for t in sorted(A['terminals']))}.\n"
            f"Definition end_sym : positive := {cpos(sid['$END'])}.\n"
            f"Definition T_unit : table := {ctable('unit')}.\nDefinition T_quantity : table := {ctable('quantity')}.\n"
            f"Definition NM : names := MkNames {cpos(nid['unit'])} {cpos(nid['unit_sequence'])} {cpos(nid['term'])} {cpos(nid['carat_exponent'])} "
-           f"{cpos(nid['superscript_exponent'])} {cpos(sid['SYMBOL'])} {cpos(sid['CARAT_EXPONENT'])} {cpos(sid['SUPERSCRIPT_EXPONENT'])}.\n")
+           f"{cpos(nid['superscript_exponent'])} {cpos(sid['SYMBOL'])} {cpos(sid['CARAT_EXPONENT'])} {cpos(sid['SUPERSCRIPT_EXPONENT'])}.\n"
+           f"Definition QN : qnames := MkQNames {cpos(nid['quantity'])} {cpos(nid['int'])} {cpos(nid['float'])} {cpos(sid['SIGNED_INT'])} {cpos(sid['SIGNED_FLOAT'])}.\n")
     return txt
